@@ -107,11 +107,11 @@ def rule_E1_E6(run_, pkg, an):
                     and not (family == "graph" and path_str(ev.path) in ("self._chi2",))]
         key7 = "C15-E7/%s" % name
         if stateful:
+            # a query that keeps state (a cache) is not by itself a violation: whether its answers can depend on earlier calls is
+            # decided semantically by the history-independence obligations below (rule_E7); recorded as a note
             ev = stateful[0]
-            run_.violation(key7, "C15-E7-queries-stateless", "query %s stores %s: its answers can depend on earlier calls" % (name, ev.describe()),
-                           where=ev.where())
-        else:
-            run_.ok(key7, "C15-E7-queries-stateless")
+            run_.note("query %s stores %s (state kept by a query; see C15-E7 history-independence obligations)" % (name, ev.describe()))
+        run_.ok(key7, "C15-E7-queries-stateless-scan", nontrivial=False)
         key = "C15-E1/%s" % name
         if bad:
             ev = bad[0]
@@ -296,6 +296,24 @@ def rule_E5(run_, pkg, an):
             run_.check(f.ok, "C15-E5/" + f.key, "C15-E5-optimize-footprint", f.what, where=f.where)
 
 
+def rule_E7(run_, pkg):
+    """Repeated calls return identical values / no dependence on the call history: the edge queries and the pose Jacobian methods
+    are evaluated, every operand is overwritten *in place*, and they are evaluated again -- the answers must be those of fresh
+    objects at the new state (shared with C01 / C10)."""
+    from ..algebra import CONFIGS, cfg_name, run_tasks, record, POSES
+    from .c01 import stale_state_obligation as edge_history
+    from .c10 import stale_state_obligation as pose_history
+    tasks = []
+    for cfg in CONFIGS:
+        fn = pkg.method(cfg[0], "calc_error")
+        tasks.append(("C15-E7/%s/history-independent" % cfg_name(cfg), "C15-E7-repeatable-queries", edge_history(cfg), "%s:%d" % (fn._gs_module, fn.lineno)))
+    for cls in POSES:
+        fn = pkg.method(cls, "jacobian_boxplus")
+        tasks.append(("C15-E7/%s/history-independent" % cls, "C15-E7-repeatable-queries", pose_history(cls), "%s:%d" % (fn._gs_module, fn.lineno)))
+    tasks = [t for t in tasks if run_.wants(t[0])]
+    record(run_, tasks, run_tasks(pkg, tasks))
+
+
 def positive_fixture(run_, pkg):
     """Zero-expected rules carry a positive example that must match on every run."""
     import textwrap
@@ -342,3 +360,4 @@ def run(run_, pkg, tier):
     rule_E3(run_, pkg, an)
     rule_E4(run_, pkg, an)
     rule_E5(run_, pkg, an)
+    rule_E7(run_, pkg)
